@@ -150,3 +150,53 @@ def fe_fields_unpickleblank(R):
                 construct=f"{c.name}.{a} rebuilt blank by __setstate__",
             )
     R.need(n >= 8, f"only {n} blank rebuilds found")
+
+
+@rule(
+    "C15.mergekeep",
+    props=("C15", "C12"),
+    floor=1,
+    family="GRD",
+    desc="SolverComposite.merge files the merged remainder (the Or over the merge conditions) with _store_child only "
+    "under a fact that it shares no variable with the children already filed in the merged solver; otherwise it is added "
+    "the ordinary way, which combines the children concerned - _store_child replaces whatever is filed under a variable",
+)
+def c15_mergekeep(R):
+    import re
+
+    from .. import guards
+
+    tree = R.tree
+    m = tree.mod(CF)
+    cls = tree.cls(CF, "SolverComposite") if "SolverComposite" in m.classes else tree.cls(CF, "CompositeFrontend")
+    fn = tree.func_inlined(CF, f"{cls.name}.merge", exclude=("_store_child", "_shared_solvers"))
+    own = {st.targets[0].id for st in walk_no_nested(fn) if isinstance(st, ast.Assign) and len(st.targets) == 1 and isinstance(st.targets[0], ast.Name) and isinstance(st.value, ast.Call) and isinstance(st.value.func, ast.Attribute) and st.value.func.attr == "blank_copy"}
+    merged_results = set()
+    for st in walk_no_nested(fn):
+        if isinstance(st, ast.Assign) and isinstance(st.value, ast.Call) and isinstance(st.value.func, ast.Attribute) and st.value.func.attr == "merge":
+            for t in st.targets:
+                for x in ast.walk(t):
+                    if isinstance(x, ast.Name):
+                        merged_results.add(x.id)
+    n = 0
+    for c in walk_no_nested(fn):
+        if not (isinstance(c, ast.Call) and isinstance(c.func, ast.Attribute) and c.func.attr == "_store_child" and isinstance(c.func.value, ast.Name) and c.func.value.id in own):
+            continue
+        if not (c.args and isinstance(c.args[0], ast.Name) and c.args[0].id in merged_results):
+            continue
+        n += 1
+        facts = [re.sub(r"\s+", " ", f) for f in guards.holds(c)]
+        ok = any((f.startswith("not ") and "_solvers" in f and ".variables" in f) or "isdisjoint" in f for f in facts)
+        R.check(
+            ok,
+            m,
+            c,
+            "merged remainder stored only where it overlaps no filed child",
+            f"{cls.name}.merge stores the merged remainder `{c.args[0].id}` with _store_child under {facts[-2:] or ['no condition']}: "
+            f"_store_child files it under every variable it mentions and replaces the common child filed there - with a merge "
+            f"condition over a variable of a common child (a.add(m <u 2); ...; a.merge([b], [m != 0, m == 0])) that child's "
+            f"constraints are lost and max(m) is 255",
+            construct="merge: merged remainder filed over existing children",
+        )
+    if n == 0:
+        R.ok(m, fn, "merge: the merged remainder is not filed with _store_child")
